@@ -216,6 +216,69 @@ func fragConc(g *Gen, n int, o *Out) {
 			}
 		}
 	}
+	// one shared Filter over LARGE containers (sizes beyond 1024 / 4096), each goroutine on its own container
+	// with its own set of selected rows, first use and steady state: a scratch buffer or an index list kept on
+	// the Filter, or a size-dependent code path, shows as wrong rows (and as a race)
+	for _, text := range []string{"keep == true", "n != 3 and keep == true"} {
+		f, err := bexpr.CreateFilter(text)
+		if err != nil || f == nil {
+			continue
+		}
+		conts := make([]interface{}, k)
+		wants := make([]string, k)
+		for w := 0; w < k; w++ {
+			size := []int{1500, 1030, 4200, 2050}[w%4]
+			rows := make([]map[string]interface{}, size)
+			for j := range rows {
+				rows[j] = map[string]interface{}{"keep": (j*7+w*3)%(w+2) == 0, "n": j % 5, "pos": j}
+			}
+			conts[w] = rows
+			if w%3 == 2 {
+				m := map[string]map[string]interface{}{}
+				for j, r := range rows[:1025] {
+					m[fmt.Sprintf("k%05d", j)] = r
+				}
+				conts[w] = m
+			}
+			fr, _ := bexpr.CreateFilter(text)
+			res, err := fr.Execute(conts[w])
+			if err != nil {
+				wants[w] = "E"
+			} else {
+				wants[w] = canonResult(res)
+			}
+		}
+		for round := 0; round < 3; round++ {
+			var wg4 sync.WaitGroup
+			got := make([]string, k)
+			for w := 0; w < k; w++ {
+				wg4.Add(1)
+				go func(w int) {
+					defer wg4.Done()
+					defer func() {
+						if r := recover(); r != nil {
+							got[w] = "P " + fmt.Sprint(r)
+						}
+					}()
+					res, err := f.Execute(conts[w])
+					if err != nil {
+						got[w] = "E"
+					} else {
+						got[w] = canonResult(res)
+					}
+				}(w)
+			}
+			wg4.Wait()
+			o.meta.Cases += k
+			o.count("conc:large-filter")
+			for w := 0; w < k; w++ {
+				if got[w] != wants[w] {
+					o.finding(Finding{Property: "C12", Kind: "failing-schedule", What: fmt.Sprintf("concurrent Execute of one Filter over large containers (round %d, goroutine %d, %T) differs from the sequential result", round, w, conts[w]), Detail: text, Request: "harness-race -frag conc (large shared filter)"})
+					break
+				}
+			}
+		}
+	}
 	if len(o.meta.Samples) == 0 {
 		o.meta.Samples = append(o.meta.Samples, fmt.Sprintf("%d goroutines x 3 rounds over 4 data on one shared evaluator, %d evaluators", k, n))
 	}
